@@ -208,11 +208,11 @@ def run(ctx):
     models = B.model_side(cases)
     for (kind, v), m in zip(cases, models):
         opts = dict(wide=ctx.rng.random() < 0.2, vpstyle=ctx.rng.choice([0, 0, 1]),
-                    prov=ctx.rng.choice(A.PROVENANCES) if ctx.rng.random() < 0.25 else None)
+                    prov=ctx.rng.choice(A.PROVENANCES) if ctx.rng.random() < 0.25 else None, scalars=ctx.rng.choice([None, None, "np", "py"]))
         r = B.real_side(kind, v, **opts)
         rep = dict(kind=kind, v=v, **opts)
         ctx.case((kind, v), nontrivial=A.nontrivial(kind, v), sample=dict(kind=kind, v=v) if len(repr(v)) < 500 else None,
-                 tags=B.shape_tags(kind, v) + ([f"prov={opts['prov']}"] if opts["prov"] else []))
+                 tags=B.shape_tags(kind, v) + ([f"prov={opts['prov']}"] if opts["prov"] else []) + ([f"scalars={opts['scalars']}"] if opts.get("scalars") else []))
         if "enc" not in r:
             ctx.fail(f"{kind}: valid block cannot be encoded: {r.get('exc', '')[:120]}", rep, ident=f"{kind} stage={r['stage']}")
             continue
@@ -260,7 +260,7 @@ def replay(path):
         rp = it["replay"]
         if "v" in rp:
             kind, v = rp["kind"], A.norm(rp["v"])
-            r = B.real_side(kind, v, wide=rp.get("wide", False), vpstyle=rp.get("vpstyle", 0), prov=rp.get("prov"))
+            r = B.real_side(kind, v, wide=rp.get("wide", False), vpstyle=rp.get("vpstyle", 0), prov=rp.get("prov"), scalars=rp.get("scalars"))
             m = B.model_side([(kind, v)])[0]
             ok = r.get("enc") == m["enc"]
             print(kind, "->", "bytes follow the layout" if ok else "bytes DIFFER from the layout")
